@@ -3,6 +3,9 @@
 #include <mutex>
 #include <utility>
 #include "apbp.h"
+#ifdef TEAKRA_VERIF
+#include "verif_hooks.h"
+#endif
 
 namespace Teakra {
 class DataChannel {
@@ -20,6 +23,9 @@ public:
             if (disable_interrupt)
                 return;
         }
+#ifdef TEAKRA_VERIF
+        TEAKRA_VERIF_YIELD(Verif::ApbpSendBeforeHandler);
+#endif
         if (handler)
             handler();
     }
@@ -110,6 +116,9 @@ void Apbp::SetSemaphore(u16 bits) {
     std::lock_guard lock(impl->semaphore_mutex);
     impl->semaphore |= bits;
     bool new_signal = (impl->semaphore & ~impl->semaphore_mask) != 0;
+#ifdef TEAKRA_VERIF
+    TEAKRA_VERIF_YIELD(Verif::ApbpSetSemaphoreBeforeHandler);
+#endif
     if (new_signal && impl->semaphore_handler) {
         impl->semaphore_handler();
     }
